@@ -129,3 +129,15 @@ claim("C15", category="model_checking", engine="arraymc",
            "every stripe clears the mark; 20 default scrubs 11 days apart cover every stripe; the C12 monitor holds on every run.",
       note="tie rule among equally old stripes is free; the clock is frozen per command through libvp",
       design="3 C15")
+
+claim("C17", category="model_checking", engine="arraymc",
+      technique="twin-array differential exploration on the real CLI over every per-split size limit in 512-byte steps",
+      text="A single-parity-file array and a k-split array (k in {2,3}, thorough {2,3,4,8}; 1-2, thorough 1-3 levels) are driven through the same "
+           "10-step history (three growths, shrink, growth, sync -F, loss of the last used split + fix, loss of a data disk + fix, shrink to almost "
+           "nothing, removal of unused trailing splits from the configuration, growth) for EVERY --test-parity-limit from 1 block to beyond the total "
+           "parity in 512-byte steps (aligned and unaligned limits, limits hit mid-growth). After every command the concatenation of the splits cut "
+           "at their recorded sizes must equal the twin's parity byte for byte, recorded sizes must be block multiples not larger than the files, "
+           "only the last used split may change size while growing, the C06 oracle (positions read back through the recorded sizes) must hold, and "
+           "a limit too small for the data must give a clean refusal that leaves C06 intact.",
+      note="limits come from the tool's own test seam; <=2 data disks",
+      design="3 C17")
